@@ -61,6 +61,7 @@ def make_pool():
         EqObj(1), EqObj(1), EqObj(2),               # 24-26
         Plain("u"), Plain("v"),                     # 27-28
         0, "",                                      # 29-30 falsy data
+        "t ", "  ",                                 # 31-32 strings that end in / consist of white space (renderings that `strip` would change)
     ]
     return pool
 
